@@ -23,8 +23,10 @@ PLAN = {
         "functions": [{"item": "valid_metric_name_start_character, valid_metric_name_character, valid_label_key_start_character, valid_label_key_character, sanitize_metric_name, sanitize_label_key", "file": "metrics-exporter-prometheus/src/formatting.rs"}],
         "harnesses": [
             {"name": "c08_char_classes", "obligation": "C08/kani/c08_char_classes", "clause": "each valid_* predicate == its Prometheus character class, for every char", "kind": "complete", "tier": "quick", "timeout": 900, "replay": True, "covers": 2},
-            {"name": "c08_sanitize_metric_name", "obligation": "C08/kani/c08_sanitize_metric_name", "clause": "same length; position 0 in start class else '_'; others in continue class else '_'", "kind": "bounded", "bound": "1..=3 ASCII chars", "tier": "quick", "timeout": 1200, "replay": True, "covers": 1},
-            {"name": "c08_sanitize_label_key", "obligation": "C08/kani/c08_sanitize_label_key", "clause": "same length; position 0 in start class else '_'; others in continue class else '_'", "kind": "bounded", "bound": "1..=3 ASCII chars", "tier": "quick", "timeout": 1200, "replay": True, "covers": 1},
+            {"name": "c08_sanitize_metric_name", "obligation": "C08/kani/c08_sanitize_metric_name", "clause": "same length; position 0 in start class else '_'; others in continue class else '_'", "kind": "bounded", "bound": "1..=3 ASCII chars", "tier": "thorough", "timeout": 1200, "replay": True, "covers": 1},
+            {"name": "c08_sanitize_metric_name_2", "obligation": "C08/kani/c08_sanitize_metric_name_2", "clause": "same as c08_sanitize_metric_name", "kind": "bounded", "bound": "1..=2 ASCII chars", "tier": "quick", "timeout": 900, "replay": False, "covers": 1},
+            {"name": "c08_sanitize_label_key_2", "obligation": "C08/kani/c08_sanitize_label_key_2", "clause": "same as c08_sanitize_label_key", "kind": "bounded", "bound": "1..=2 ASCII chars", "tier": "quick", "timeout": 900, "replay": False, "covers": 1},
+            {"name": "c08_sanitize_label_key", "obligation": "C08/kani/c08_sanitize_label_key", "clause": "same length; position 0 in start class else '_'; others in continue class else '_'", "kind": "bounded", "bound": "1..=3 ASCII chars", "tier": "thorough", "timeout": 1200, "replay": True, "covers": 1},
         ],
     }],
     "witnesses": [
